@@ -1035,6 +1035,14 @@ def gen_bad_call(ch, p, side):
         if sid is None:
             return
         n = ch.pick([2 ** 24, 2 ** 20 + 70000])
+        try:
+            room = min(p.ep[side].c.local_flow_control_window(sid), p.ep[side].c.max_outbound_frame_size)
+        except Exception:   # noqa: BLE001 - the send decides
+            room = 0
+        if n <= room:
+            # (after enough window updates and a raised MAX_FRAME_SIZE even this fits: then it is no refusal)
+            p.r.excluded['oversize-data-that-fits'] += 1
+            return
         p.do_call(side, 'send_data', (sid, b'z' * n), {}, M.REFUSE, 'flow-control-or-frame-size', never)
     elif kind == 'wrong-parity':
         top = max(m.hi_local, m.hi_peer) + 11
